@@ -10,4 +10,4 @@ for c in "$@"; do
   echo "$out" | grep -E '^(violation:|verif: harness)' | cut -c1-260 | head -3
 done
 for c in "$@"; do [ -f /tmp/sib-$$-$c.json ] && mv /tmp/sib-$$-$c.json evidence/$c.json; done
-git -C /repo checkout -- .
+git -C /repo checkout -- . ; git -C /repo clean -fdq
